@@ -226,7 +226,8 @@ def check(c):
     tail = N % B != 0 and N > B
     nt = tail and c["epochs"] >= 2 and (bases is None or len(set(c["bases"])) >= 2)
     return {"nontrivial": nt, "labels": [f"type={t}", f"form={c['form']}"] + (["N<B"] if N < B else ["N=mB"] if N % B == 0 else ["N=mB+r"]) +
-            (["stub_grad"] if stub else []) + (["bases"] if bases is not None else []) + (["big(N>100)"] if N > 100 else []) + (["default_batch_size"] if c["pbs"] is None else []) + (["neg!=pos"] if nbs != B else [])}
+            (["stub_grad"] if stub else []) + (["bases"] if bases is not None else []) + (["big(N>100)"] if N > 100 else []) + (["default_batch_size"] if c["pbs"] is None else []) + (["neg!=pos"] if nbs != B else []) +
+            (["busy_callback"] if (c["torch_seed"] % 4 == 0 and n <= 4 and c["epochs"] <= 4 and N <= 12) else []) + (["more_than_32_epochs"] if c["epochs"] > 32 else [])}
 
 
 SUBCHECKS = [Sub("epoch_batches", check, strategy=lambda tier: runs(tier), quick=640, thorough=12000)]
